@@ -726,7 +726,7 @@ func Error(ctx context.Context, args ...object.Object) object.Object {
 		msg := arg
 		var msgArgs []interface{}
 		for _, arg := range args[1:] {
-			msgArgs = append(msgArgs, arg.Interface())
+			msgArgs = append(msgArgs, object.PrintableValue(arg))
 		}
 		return object.Errorf(msg.Value(), msgArgs...)
 	default:
